@@ -61,27 +61,30 @@ type Fault struct {
 }
 
 type Op struct {
-	UID       uint32    `json:"uid"`
-	Kind      string    `json:"kind"`
-	Schema    string    `json:"schema,omitempty"` // schema / parameter / header JSON
-	Data      string    `json:"data,omitempty"`   // instance JSON
-	UseNumber bool      `json:"use_number,omitempty"`
-	TVal      *TypedVal `json:"tval,omitempty"`
-	Recycle   bool      `json:"recycle,omitempty"`
-	Swagger   bool      `json:"swagger,omitempty"` // SwaggerSchema(true) option
-	Path      string    `json:"path,omitempty"`    // root path / name
-	Doc       string    `json:"doc,omitempty"`     // spec document: "@<corpus id>" or inline JSON
-	COE       *bool     `json:"coe,omitempty"`     // SetContinueOnErrors on the spec validator / the value for set_coe
-	YAML      bool      `json:"yaml,omitempty"`    // feed the document as YAML-converted bytes
-	Pattern   string    `json:"pattern,omitempty"`
-	Str       string    `json:"str,omitempty"`
-	LL        int       `json:"ll,omitempty"`
-	Shared    int       `json:"shared,omitempty"` // 1-based index of a schema object shared between tasks (contains no $ref)
-	Inv       uint64    `json:"-"`                // global event numbers at invoke / return (recorded histories)
-	Ret       uint64    `json:"-"`
-	OrderSeed uint64    `json:"order_seed,omitempty"`
-	Fault     *Fault    `json:"fault,omitempty"`
-	Role      string    `json:"role,omitempty"` // prefix | victim | suffix | intruder ... (informational)
+	UID          uint32    `json:"uid"`
+	Kind         string    `json:"kind"`
+	Schema       string    `json:"schema,omitempty"` // schema / parameter / header JSON
+	Data         string    `json:"data,omitempty"`   // instance JSON
+	UseNumber    bool      `json:"use_number,omitempty"`
+	TVal         *TypedVal `json:"tval,omitempty"`
+	Recycle      bool      `json:"recycle,omitempty"`
+	Swagger      bool      `json:"swagger,omitempty"`       // SwaggerSchema(true) option
+	Path         string    `json:"path,omitempty"`          // root path / name
+	Doc          string    `json:"doc,omitempty"`           // spec document: "@<corpus id>" or inline JSON
+	COE          *bool     `json:"coe,omitempty"`           // SetContinueOnErrors on the spec validator / the value for set_coe
+	YAML         bool      `json:"yaml,omitempty"`          // feed the document as YAML-converted bytes
+	Reorder      bool      `json:"reorder,omitempty"`       // feed the document with all object members in reverse order
+	OptMode      int       `json:"opt_mode,omitempty"`      // 2: only EnableObjectArrayTypeCheck, 3: only EnableArrayMustHaveItemsCheck
+	SkipSchemata bool      `json:"skip_schemata,omitempty"` // WithSkipSchemataResult(true)
+	Pattern      string    `json:"pattern,omitempty"`
+	Str          string    `json:"str,omitempty"`
+	LL           int       `json:"ll,omitempty"`
+	Shared       int       `json:"shared,omitempty"` // 1-based index of a schema object shared between tasks (contains no $ref)
+	Inv          uint64    `json:"-"`                // global event numbers at invoke / return (recorded histories)
+	Ret          uint64    `json:"-"`
+	OrderSeed    uint64    `json:"order_seed,omitempty"`
+	Fault        *Fault    `json:"fault,omitempty"`
+	Role         string    `json:"role,omitempty"` // prefix | victim | suffix | intruder ... (informational)
 	// NoHash: leave the content hash of the reported schemata out of the outcome. Set for long-lived validators whose
 	// schema contains $ref: the library expands references in place, lazily, by design (outside C08; see C12), so
 	// the schema a long-lived validator reports legitimately changes as more of it gets expanded.
@@ -371,6 +374,15 @@ func (op *Op) schemaOpts() []validate.Option {
 	if op.Swagger {
 		opts = append(opts, validate.SwaggerSchema(true))
 	}
+	switch op.OptMode {
+	case 2:
+		opts = append(opts, validate.EnableObjectArrayTypeCheck(true))
+	case 3:
+		opts = append(opts, validate.EnableArrayMustHaveItemsCheck(true))
+	}
+	if op.SkipSchemata {
+		opts = append(opts, validate.WithSkipSchemataResult(true))
+	}
 	return opts
 }
 
@@ -598,6 +610,9 @@ func loadDoc(op *Op) (*loads.Document, error) {
 	if err != nil {
 		return nil, err
 	}
+	if op.Reorder {
+		raw = reorderJSON(raw)
+	}
 	if op.YAML {
 		// serialisation variant: JSON -> YAML text -> (loader's YAML path) -> JSON
 		y, err := jsonToYAML(raw)
@@ -610,6 +625,54 @@ func loadDoc(op *Op) (*loads.Document, error) {
 		}
 	}
 	return loads.Analyzed(json.RawMessage(raw), "")
+}
+
+// reorderJSON re-serialises a JSON text with the members of every object in reverse lexical order (a member-order
+// variant of the same document).
+func reorderJSON(raw []byte) []byte {
+	var v any
+	dec := json.NewDecoder(bytes.NewReader(raw))
+	dec.UseNumber()
+	if err := dec.Decode(&v); err != nil {
+		return raw
+	}
+	var buf bytes.Buffer
+	var emit func(x any)
+	emit = func(x any) {
+		switch t := x.(type) {
+		case map[string]any:
+			keys := make([]string, 0, len(t))
+			for k := range t {
+				keys = append(keys, k)
+			}
+			sort.Sort(sort.Reverse(sort.StringSlice(keys)))
+			buf.WriteByte('{')
+			for i, k := range keys {
+				if i > 0 {
+					buf.WriteByte(',')
+				}
+				kb, _ := json.Marshal(k)
+				buf.Write(kb)
+				buf.WriteByte(':')
+				emit(t[k])
+			}
+			buf.WriteByte('}')
+		case []any:
+			buf.WriteByte('[')
+			for i, e := range t {
+				if i > 0 {
+					buf.WriteByte(',')
+				}
+				emit(e)
+			}
+			buf.WriteByte(']')
+		default:
+			b, _ := json.Marshal(t)
+			buf.Write(b)
+		}
+	}
+	emit(v)
+	return buf.Bytes()
 }
 
 func compactJSON(b []byte) string {
